@@ -208,8 +208,19 @@ def mutate(rng, t, d):
     return (k, mutate(rng, t[1], d - 1))
 
 
+def depth2_family():
+    """every container directly over every kind of MIXED inner type (an owned, non-Clone part next to a borrowed one): the conversions
+    that must pass an exhausted inner slot on (`?`) instead of producing a value"""
+    rc, rs, n, c = ("ref", "e", "C"), ("ref", "e", "Str"), ("own", "N"), ("own", "C")
+    inners = [("res", rc, n), ("res", rs, c), ("tup", [rc, n]), ("opt", n), ("vec", ("res", rc, n)), ("poll", ("res", rc, n))]
+    out = []
+    for i in inners:
+        out += [("opt", i), ("vec", i), ("poll", i), ("res", i, n), ("res", rc, i), ("tup", [i, rs])]
+    return [t for t in out if depth(t) <= 3]
+
+
 def gen_types(rng, tier):
-    ts = [("own", "C"), ("own", "N"), UNIT] + REF_E + REF_S
+    ts = [("own", "C"), ("own", "N"), UNIT] + REF_E + REF_S + depth2_family()
     for c in ("opt", "vec", "poll"):
         ts += [(c, l) for l in LEAVES]
     pairs = [(a, b) for a in LEAVES for b in LEAVES]
